@@ -61,7 +61,7 @@
    before-context can only match at index 0. Mechanism: `sameContainerType` dispatches both nodes
    (jsonList / jsonArray → same kind), then `jsonList.diff` type-asserts the other side WITHOUT
    dispatching it (`n.(jsonList)` fails on a `jsonArray`) and replaces the element wholesale: a hunk at
-   an ARRAY INDEX WITHOUT context lines (`wHunk`; it is in `PBwf` but not `jdShaped`). The reader
+   an ARRAY INDEX WITHOUT before-context (`wHunk`; it is in `PBwf` but not `jdShaped`). The reader
    (`setPatchDiffElementContext`) turns "test + remove at the same index, no context test" into
    Before = After = [void].
    Go replay: `a := ReadJsonString("[null,[true,true]]"); a.Patch(a.Diff([null,[true]]))` — `Patch`
@@ -70,11 +70,15 @@
    three operations above, `ReadPatchString` reads `@ [1] / [ / - [true] / + [false] / ]`, and applying
    it to a fresh copy of `a` fails with "invalid patch. expected {} before. got …", while the native
    diff applies. Documents read from text never contain such a node (`elemsRaw_of_rawDoc`); the state
-   is reachable only through that in-place mutation by `Patch`. (Remark on the model: for a
-   wholesale-replacement sub-diff the Go `diffRest` also sets `After` on it, because it tells its own
-   accumulated hunk from a sub-diff by the LENGTH of the path; the model's `diffRest` does not. The
-   witness sits at the last position, where that context is the void marker and is not rendered:
-   model and Go produce the same operations.)
+   is reachable only through that in-place mutation by `Patch`. (The model follows the Go
+   `diffRest` here: it tells its own accumulated hunk from a sub-diff by the LENGTH of the path, so
+   a wholesale-replacement sub-diff with nothing accumulated receives the after-context
+   (`Jd.subAfter`). The witness sits at the LAST position, where that context is the void marker and
+   is not rendered. `Witness.typed_list_element_witness_mid`: the same pair at a NON-LAST position
+   `k ≥ 1` — the hunk carries the true next element as after-context, the rendered JSON Patch gets
+   the after-context test `test /k+1`, the reader accepts it, and `Patch` of the hunk read back still
+   fails (void before-context at index `k ≥ 1`). `Witness.first_position_reads_back_and_applies`: at
+   index 0 the hunk read back applies, the void before-context matching the array start.)
    Consequently the closed theorems take the explicit, decidable hypothesis `elemsRaw a`; it is not
    silently added: the witness shows the statement is false without it.
 
@@ -567,6 +571,15 @@ theorem diff_own (o : Opts) (ho : dispatchTag o = .list) :
     simp only [elemsRawList, Bool.and_eq_true] at er
     simp only [wfList, Bool.and_eq_true] at wb
     simp only [listDocList, Bool.and_eq_true] at hlb
+    -- `x` is not a typed `jsonList` (`elemsRaw`): `subAfter` does not touch the sub-diff
+    have hsa : subAfter p (R.isEmpty && A.isEmpty) (a'.headD .void)
+        (diffNode o false x y (p ++ [.idx (k : Int)])) = diffNode o false x y (p ++ [.idx (k : Int)]) := by
+      rcases subAfter_diffNode_cases o ho gx.listDoc hlb.1 hsc p (k : Int) (R.isEmpty && A.isEmpty)
+        (a'.headD .void) with e | ⟨_, xs, ys, rfl, _⟩
+      · exact e
+      · have := er.1.1
+        simp [topRaw] at this
+    rw [hsa]
     obtain ⟨i1, i2, i3⟩ := ihR ga' GoodL.nil er.2 wb.2 rfl hlb.1 (fun _ => by omega) (Nat.le_refl _) p
     obtain ⟨n1, n2, n3⟩ := ihN gx er.1.2 wb.1 (p ++ [.idx (k : Int)]) (.inr ⟨hsc, er.1.1⟩)
     have hafter : (if (diffNode o false x y (p ++ [.idx (k : Int)])).isEmpty then a'.headD .void
@@ -661,11 +674,12 @@ theorem pbwfH_of {M : Nat} {h : Hunk} (g : PRC.Gen M h) (w : OwnH h) (pe : PRC.P
     simp [PBwfH, w.strict, hpo, b0, a0, hval, hadd, g.nonEmpty, hl, realCtx, r1, d1]
   · have hl : lastIdx? h.path = some (s : Int) := by rw [hpth]; exact lastIdx_concat_idx pp _
     have hrange : (s : Int) + (h.remove.length : Int) < 2 ^ 53 := by
-      rcases g.shape with ⟨b0, _⟩ | ⟨pp', s', _, _, hp', _, _, _, _, hs'⟩
+      rcases g.shape with ⟨b0, _⟩ | ⟨pp', s', _, _, hp', _, _, _, _, hs'⟩ | ⟨_, _, _, _, b0, _⟩
       · rw [hb] at b0; cases b0
       · rw [hp', lastIdx_concat_idx] at hl
         injection hl with hl
         omega
+      · rw [hb] at b0; cases b0
     have hctx : (!realCtx [prev] || decide (1 ≤ (s : Int))) = true := by
       cases hv : prev.isVoid with
       | true => simp [realCtx, hv]
@@ -919,9 +933,11 @@ namespace Witness
 def wA : Json := .arr .raw [.null, .arr .list [.bool true]]
 /-- `[null, [false]]` as read from text -/
 def wB : Json := .arr .raw [.null, .arr .raw [.bool false]]
-/-- the hunk of `wA.Diff(wB)`: a wholesale replacement at index 1, WITHOUT context lines -/
+/-- the hunk of `wA.Diff(wB)`: a wholesale replacement at index 1, WITHOUT before-context; its
+    after-context (set by `subAfter`, as the Go `diffRest` does) is the array-end marker -/
 def wHunk : Hunk :=
-  { path := [.idx 1], remove := [.arr .list [.bool true]], add := [.arr .raw [.bool false]] }
+  { path := [.idx 1], remove := [.arr .list [.bool true]], add := [.arr .raw [.bool false]],
+    after := [.void] }
 /-- what `ReadPatchString` makes of its rendering: both context lines are the boundary marker -/
 def wRead : Hunk :=
   { path := [.idx 1], before := [.void], remove := [.arr .list [.bool true]],
@@ -999,7 +1015,8 @@ theorem hyps :
     succeeds; `ReadPatchString` ACCEPTS the operations; but the diff read back does NOT apply to `wA`:
     `Patch` returns an error. `sameContainerType` dispatches both nodes (true), `jsonList.diff` then
     type-asserts the other side (a `jsonArray`) and replaces the element wholesale, emitting a hunk at
-    an array index with NO context lines; the reader turns "no context test" into the boundary marker
+    an array index with NO before-context (its after-context, set by `subAfter`, is the array-end
+    marker here and is not rendered); the reader turns "no context test" into the boundary marker
     on both sides, and the void before-context can never match at index 1. -/
 theorem typed_list_element_witness (L : FloatLaws) (F : FloatEq0) :
     (∃ r, applyStrictAll wA (diffM [] wA wB) = some r ∧ specEq r wB = true) ∧
@@ -1012,6 +1029,153 @@ theorem typed_list_element_witness (L : FloatLaws) (F : FloatEq0) :
     (PRC.memOK_of_vfree _ h8) h12 h13
   refine ⟨⟨r, hr, e⟩, by rw [diff_w, render_w], read_w L F, patch_w, by rw [diff_w]; exact wHunk_in_grammar,
     by rw [diff_w]; decide⟩
+
+
+/-! ### the same pair at a NON-LAST position: the after-context set by `subAfter` is a real value -/
+
+/-- `[null, [true], null]`, the inner array being a typed `jsonList` node -/
+def mA : Json := .arr .raw [.null, .arr .list [.bool true], .null]
+/-- `[null, [false], null]` as read from text -/
+def mB : Json := .arr .raw [.null, .arr .raw [.bool false], .null]
+/-- the hunk of `mA.Diff(mB)`: no before-context, the TRUE next element as after-context -/
+def mHunk : Hunk :=
+  { path := [.idx 1], remove := [.arr .list [.bool true]], add := [.arr .raw [.bool false]],
+    after := [.null] }
+/-- what `ReadPatchString` makes of its rendering -/
+def mRead : Hunk :=
+  { path := [.idx 1], before := [.void], remove := [.arr .list [.bool true]],
+    add := [.arr .raw [.bool false]], after := [.null] }
+def mOps : List PatchOp :=
+  [tst "/2" .null, tst "/1" (.arr .list [.bool true]), rmv "/1" (.arr .list [.bool true]),
+   adp "/1" (.arr .raw [.bool false])]
+
+theorem diff_m : diffM [] mA mB = [mHunk] := by
+  have hl : lcsValues (hashList [] [Json.null, .arr .list [.bool true], .null])
+      (hashList [] [Json.null, .arr .raw [.bool false], .null]) =
+      [hashCode [] Json.null, hashCode [] Json.null] := by
+    decide +kernel
+  unfold diffM mA mB
+  rw [show isMerge [] = false from rfl, diffNode_arr_arr (o := []) rfl _ _ rfl rfl (.inl rfl), hl,
+    diffRest_cons]
+  have h1 : atC [] Json.null [hashCode [] Json.null, hashCode [] Json.null] = true := by decide +kernel
+  simp only [h1, Bool.and_self, if_true]
+  rw [diffRest_cons]
+  have h2 : atC [] (Json.arr .list [.bool true])
+      ([hashCode [] Json.null, hashCode [] Json.null] : List UInt64).tail = false := by decide +kernel
+  have h3 : atC [] (Json.arr .raw [.bool false])
+      ([hashCode [] Json.null, hashCode [] Json.null] : List UInt64).tail = false := by decide +kernel
+  have h4 : sameContainerType [] (Json.arr .list [.bool true]) (Json.arr .raw [.bool false]) = true := rfl
+  simp only [h2, h3, h4, Bool.false_and, Bool.false_eq_true, if_false, if_true]
+  rw [diffNode_arr_other (o := []) rfl _ _ rfl (.inr ⟨rfl, _, rfl⟩), diffRest_cons]
+  have h5 : atC [] Json.null ([hashCode [] Json.null, hashCode [] Json.null] : List UInt64).tail = true := by
+    decide +kernel
+  simp only [h5, Bool.and_self, if_true]
+  rw [diffRest_nil_nil]
+  rfl
+
+theorem render_m : renderPatchOps [mHunk] = .ok mOps := by
+  have : renderPatchHunk mHunk = .ok mOps := by
+    rw [renderPatchHunk_eq]
+    simp [renderPatchHunk', mHunk, NMP.wpp_1, ctxOps, remOpsOf, addOpsOf, Json.isVoid]
+    rfl
+  rw [renderPatchOps, this]; rfl
+
+theorem mHunk_in_grammar : PBwf [mHunk] = true := by decide +kernel
+
+theorem mHunk_not_jdShaped : jdShaped mHunk = false := by decide
+
+theorem read_m (L : FloatLaws) (F : FloatEq0) : readPatchOps mOps = .ok [mRead] := by
+  have := NMP.readPatchOps_render L F [mHunk] mHunk_in_grammar mOps render_m
+  rw [this]
+  rfl
+
+theorem patch_m : patchM mA [mRead] = .err := by
+  have h := patchM_strict_eq_ref mA [mRead] (by decide) (by decide)
+  have hn : applyStrictAll mA [mRead] = none := by
+    simp [applyStrictAll, applyStrict, mA, mRead, splice, prefixEq, beforeOk, afterOk, specEq, equivB,
+      equivList, dispatchTag]
+  rw [hn] at h
+  cases hP : patchM mA [mRead] with
+  | ok r => rw [hP] at h; simp [Outcome.mapO, optToOutcome] at h
+  | err => rfl
+  | panic => rw [hP] at h; simp [Outcome.mapO, optToOutcome] at h
+
+/-- the native diff (with its after-context `null`, the true next element) applies -/
+theorem native_m : applyStrictAll mA (diffM [] mA mB) =
+    some (.arr .raw [.null, .arr .raw [.bool false], .null]) := by
+  rw [diff_m]
+  simp [applyStrictAll, applyStrict, mA, mHunk, splice, prefixEq, beforeOk, afterOk, specEq, equivB,
+    equivList, dispatchTag]
+
+/-- **WITNESS at a non-last position** (`mA = [null, [true], null]`, inner array a typed `jsonList`;
+    `mB = [null, [false], null]`): the hunk now carries the after-context `null` (the true next
+    element), the native diff applies, the rendered JSON Patch gets the after-context test
+    `test /2 null`, the reader accepts it and reads a hunk whose before-context is the boundary
+    marker, and `Patch` of that hunk still FAILS at index 1: `elemsRaw` remains necessary. -/
+theorem typed_list_element_witness_mid (L : FloatLaws) (F : FloatEq0) :
+    applyStrictAll mA (diffM [] mA mB) = some (.arr .raw [.null, .arr .raw [.bool false], .null]) ∧
+    renderPatchOps (diffM [] mA mB) = .ok mOps ∧
+    readPatchOps mOps = .ok [mRead] ∧
+    patchM mA [mRead] = .err ∧
+    PBwf (diffM [] mA mB) = true ∧ (diffM [] mA mB).all jdShaped = false ∧ elemsRaw mA = false :=
+  ⟨native_m, by rw [diff_m, render_m], read_m L F, patch_m, by rw [diff_m]; exact mHunk_in_grammar,
+    by rw [diff_m]; decide, by decide⟩
+
+/-! ### … and at the FIRST position the read-back hunk applies (the void before-context matches the
+    array start) -/
+
+def fA : Json := .arr .raw [.arr .list [.bool true], .null]
+def fB : Json := .arr .raw [.arr .raw [.bool false], .null]
+def fHunk : Hunk :=
+  { path := [.idx 0], remove := [.arr .list [.bool true]], add := [.arr .raw [.bool false]],
+    after := [.null] }
+def fRead : Hunk :=
+  { path := [.idx 0], before := [.void], remove := [.arr .list [.bool true]],
+    add := [.arr .raw [.bool false]], after := [.null] }
+
+theorem diff_f : diffM [] fA fB = [fHunk] := by
+  have hl : lcsValues (hashList [] [.arr .list [.bool true], Json.null])
+      (hashList [] [.arr .raw [.bool false], Json.null]) = [hashCode [] Json.null] := by
+    decide +kernel
+  unfold diffM fA fB
+  rw [show isMerge [] = false from rfl, diffNode_arr_arr (o := []) rfl _ _ rfl rfl (.inl rfl), hl,
+    diffRest_cons]
+  have h2 : atC [] (Json.arr .list [.bool true]) [hashCode [] Json.null] = false := by decide +kernel
+  have h3 : atC [] (Json.arr .raw [.bool false]) [hashCode [] Json.null] = false := by decide +kernel
+  have h4 : sameContainerType [] (Json.arr .list [.bool true]) (Json.arr .raw [.bool false]) = true := rfl
+  simp only [h2, h3, h4, Bool.false_and, Bool.false_eq_true, if_false, if_true]
+  rw [diffNode_arr_other (o := []) rfl _ _ rfl (.inr ⟨rfl, _, rfl⟩), diffRest_cons]
+  have h5 : atC [] Json.null [hashCode [] Json.null] = true := by decide +kernel
+  simp only [h5, Bool.and_self, if_true]
+  rw [diffRest_nil_nil]
+  rfl
+
+def fOps : List PatchOp :=
+  [tst "/1" .null, tst "/0" (.arr .list [.bool true]), rmv "/0" (.arr .list [.bool true]),
+   adp "/0" (.arr .raw [.bool false])]
+
+theorem render_f : renderPatchOps [fHunk] = .ok fOps := by
+  have : renderPatchHunk fHunk = .ok fOps := by
+    rw [renderPatchHunk_eq]
+    simp [renderPatchHunk', fHunk, NMP.wpp_0, NMP.wpp_1, ctxOps, remOpsOf, addOpsOf, Json.isVoid,
+      lastIdx?, setLastIdx, fOps, tst, rmv, adp]
+    rfl
+  rw [renderPatchOps, this]; rfl
+
+theorem fHunk_in_grammar : PBwf [fHunk] = true := by decide +kernel
+
+/-- at the FIRST position the diff read back from the rendered JSON Patch applies: the boundary
+    marker the reader puts as before-context matches the array start -/
+theorem first_position_reads_back_and_applies (L : FloatLaws) (F : FloatEq0) :
+    renderPatchOps (diffM [] fA fB) = .ok fOps ∧ readPatchOps fOps = .ok [fRead] ∧
+      applyStrictAll fA [fRead] = some (.arr .raw [.arr .raw [.bool false], .null]) := by
+  refine ⟨by rw [diff_f, render_f], ?_, ?_⟩
+  · have := NMP.readPatchOps_render L F [fHunk] fHunk_in_grammar fOps render_f
+    rw [this]
+    rfl
+  · simp [applyStrictAll, applyStrict, fA, fRead, splice, prefixEq, beforeOk, afterOk, specEq, equivB,
+      equivList, dispatchTag, Json.isVoid]
+
 
 end Witness
 
@@ -1099,5 +1263,7 @@ end Example
 #print axioms objVoidHunk_not_in_grammar
 #print axioms Witness.typed_list_element_witness
 #print axioms Witness.hyps
+#print axioms Witness.typed_list_element_witness_mid
+#print axioms Witness.first_position_reads_back_and_applies
 
 end Jd.Own
